@@ -37,7 +37,7 @@ impl SimParams {
             est_steps,
             shards: *rng.pick(&[1usize, 2, 4, 4, 16, 64]),
             workers: rng.range(1, 4),
-            max_steps: 2_000_000,
+            max_steps: 20_000_000, // a cap for runaway runs, not a liveness bound: a thorough-tier workspace (scan + every query of a scenario) came within 344 steps of the former 2 M
         }
     }
 
